@@ -4,6 +4,7 @@ import (
 	"errors"
 	"fmt"
 	"path/filepath"
+	"sync/atomic"
 	"time"
 
 	"github.com/form3tech-oss/f1/v2/internal/metrics"
@@ -149,6 +150,33 @@ func c08cli(n, f int, setupMode, teardownMode string, maxF, maxFR int) (row c08r
 	return row
 }
 
+// c08cliDrops: s = bodies run (all pass), d = 1 stands for "some" (the verdict rule only asks d > 0 here: no tolerance set)
+func c08cliDrops(ign bool) (row c08row) {
+	row = c08row{Kind: "cli", D: 1, Ign: ign, Mode: "drops"}
+	defer func() {
+		if r := recover(); r != nil {
+			row.Panicked = true
+			row.PanicMsg = fmt.Sprint(r)
+		}
+	}()
+	var ran atomic.Int64
+	scen := func(t *f1testing.T) f1testing.RunFn {
+		return func(t *f1testing.T) {
+			ran.Add(1)
+			time.Sleep(25 * time.Millisecond)
+		}
+	}
+	args := []string{"run", "constant", "-r", "20/10ms", "--distribution", "none", "--max-duration", "300ms", "--concurrency", "1", "-v"}
+	if ign {
+		args = append(args, "--ignore-dropped")
+	}
+	args = append(args, "scn")
+	err := f1.New().WithLogger(discardLogger()).Add("scn", scen).ExecuteWithArgs(args)
+	row.S = int(ran.Load())
+	row.Failed = err != nil
+	return row
+}
+
 func init() {
 	register("c08", func(c *ctx) error {
 		w, err := newNDJSON(filepath.Join(c.out, "c08.ndjson"))
@@ -253,6 +281,11 @@ func init() {
 		}
 		for _, k := range cases {
 			w.write(c08cli(k.n, k.f, k.sf, k.tf, k.maxF, k.mxFR))
+		}
+		// the CLI with dropped iterations (one slow worker, 20 requests per 10 ms): every iteration passes, so the
+		// command fails exactly when dropped iterations are not ignored
+		for _, ign := range []bool{false, true} {
+			w.write(c08cliDrops(ign))
 		}
 		fmt.Println("c08 observations:", w.n)
 		return nil
